@@ -101,6 +101,15 @@ pub fn record_c11(rng: &mut Rng, count: u64, out: &mut Out) {
     let nside = gen_nside(rng);
     let n = nside as u64;
     let nh = 12 * n * n;
+    if k % 25 == 24 {
+      // the constants of the scheme at this NSIDE
+      let r = guarded(|| (ring::n_hash(nside), ring::n_isolatitude_rings(nside) as u64, ring::first_hash_on_npc_eqr_transition(nside), ring::first_hash_in_eqr(nside),
+                          ring::first_hash_on_eqr_spc_transition(nside), ring::first_hash_in_spc(nside)));
+      let (p, v) = match r { Some(v) => (0, v), None => (1, (0, 0, 0, 0, 0, 0)) };
+      out.emit(json!({"ev": "ring_meta", "n": nside, "p": p, "nh": big_digits(v.0), "nr": big_digits(v.1), "ft": big_digits(v.2), "fe": big_digits(v.3),
+                      "st": big_digits(v.4), "fs": big_digits(v.5), "in": format!("{}", nside)}));
+      continue;
+    }
     match k % 4 {
       0 | 1 => {
         // hash of a position: RING index of a cell whose closure contains the position
